@@ -174,7 +174,13 @@ func c13Force(c *core.Ctx, r *core.Reporter) {
 	r.Check(nonRoot == 2, "executePlannedSelection/nested-not-serial", eps.Pos(), "nested selections pass a constant flag", "nested selection calls no longer pass a constant serial flag")
 	// isMutation = (operation type == mutation)
 	okMut := false
-	for _, st := range core.LiteralStores(pq, "Plan") {
+	var planLits []map[string][]ssa.Value
+	for _, g := range c.Region(pq) { // PlanQuery or a phase split off it
+		for _, st := range core.LiteralStores(g, "Plan") {
+			planLits = append(planLits, st)
+		}
+	}
+	for _, st := range planLits {
 		for _, v := range st["isMutation"] {
 			if bo, ok := v.(*ssa.BinOp); ok && bo.Op == token.EQL {
 				if s, ok := core.ConstString(bo.Y); ok && s == "mutation" {
